@@ -10,7 +10,7 @@ from .checkC16 import run_in_fresh_process, shrink
 from .rng import Rng, derive
 from .snapshot import snapshot
 
-PREFIXES = [None, ['Other'], ['Other', 'Project'], ['a', 'B', 'c9']]
+PREFIXES = [None, ['Other'], ['Other', 'Project'], ['a', 'B', 'c9'], ['Other_Project'], ['a_B', 'c9']]
 
 
 def invalid_variants(rng: Rng, spec, cfg):
